@@ -3,82 +3,130 @@ import Narwhal.Generated.Steps
 /-!
 # C07 — a username has at most one live holder, under every interleaving
 
-Without modulator authentication, for every sequence of registrations and connection ends (in any order, by any number of
-connections): a name is held by at most one connection; an IDENTIFY is acknowledged exactly when nobody holds the name; the
-holder keeps the name until *its own* connection ends — nothing another connection does takes it away; and the name is free
-again as soon as the holder has ended.
+Without modulator authentication, for every sequence of registrations, connection ends and clean-up completions (in any order,
+by any number of connections): a name is held by at most one connection; an IDENTIFY is acknowledged exactly when the name is
+neither held nor reserved by a clean-up still in progress (so a new session never meets the memberships of its predecessor —
+C01's "even after reconnecting under the same name", repair ad38d09); the holder keeps the name until *its own* connection
+ends; and the name is available again once the holder has ended and its clean-up has finished.
 -/
 namespace Narwhal.Names
 
-theorem step_le_one (r : Router) (op : Op) (h : ∀ n, (r n).length ≤ 1) : ∀ n, ((step r op) n).length ≤ 1 := by
+theorem step_le_one (r : Router) (op : Op) (h : ∀ n, (holders r n).length ≤ 1) : ∀ n, (holders (step r op) n).length ≤ 1 := by
   intro n
   cases op with
   | identify name k =>
     simp only [step]
-    split
-    · by_cases hn : n = name <;> simp [hn, h n]
-    · exact h n
+    cases hr : r name with
+    | none =>
+      simp only [holders]
+      by_cases hn : n = name
+      · simp [hn]
+      · simp only [hn, if_false]; exact h n
+    | some l => exact h n
   | ended name k =>
     simp only [step]
-    by_cases hn : n = name
-    · simp only [hn, if_true]; exact Nat.le_trans (List.length_filter_le _ _) (h name)
-    · simp only [hn, if_false]; exact h n
+    cases hr : r name with
+    | none => exact h n
+    | some l =>
+      simp only [holders]
+      by_cases hn : n = name
+      · simp only [hn, if_true, Option.getD_some]
+        have := h name
+        simp only [holders, hr, Option.getD_some] at this
+        exact Nat.le_trans (List.length_filter_le _ _) this
+      · simp only [hn, if_false]; exact h n
+  | cleaned name =>
+    simp only [step]
+    split
+    · simp only [holders]
+      by_cases hn : n = name
+      · simp [hn]
+      · simp only [hn, if_false]; exact h n
+    · exact h n
 
 /-- **C07 (unique while live)**: whatever the interleaving, at most one connection holds a name -/
-theorem C07_unique_holder (ops : List Op) (n : Name) : ((run init ops) n).length ≤ 1 := by
-  have : ∀ (r : Router), (∀ n, (r n).length ≤ 1) → ∀ n, ((run r ops) n).length ≤ 1 := by
+theorem C07_unique_holder (ops : List Op) (n : Name) : (holders (run init ops) n).length ≤ 1 := by
+  have : ∀ (r : Router), (∀ n, (holders r n).length ≤ 1) → ∀ n, (holders (run r ops) n).length ≤ 1 := by
     induction ops with
     | nil => intro r h; exact h
     | cons op ops ih => intro r h; exact ih (step r op) (step_le_one r op h)
-  exact this init (fun _ => by simp [init]) n
+  exact this init (fun _ => by simp [init, holders]) n
 
-/-- an IDENTIFY is acknowledged exactly when the name is free, and then the connection holds it -/
+/-- an IDENTIFY is acknowledged exactly when the name is neither held nor reserved, and then the connection holds it -/
 theorem C07_identify_iff_free (r : Router) (name : Name) (k : Nat) :
-    (accepted r (.identify name k) = true ↔ r name = []) ∧
-    (accepted r (.identify name k) = true → (step r (.identify name k)) name = [k]) ∧
+    (accepted r (.identify name k) = true ↔ taken r name = false) ∧
+    (accepted r (.identify name k) = true → holders (step r (.identify name k)) name = [k]) ∧
     (accepted r (.identify name k) = false → step r (.identify name k) = r) := by
-  refine ⟨by simp [accepted, List.isEmpty_iff], ?_, ?_⟩
-  · intro h; simp only [accepted] at h; simp [step, h]
-  · intro h; simp only [accepted] at h; simp [step, h]
+  refine ⟨?_, ?_, ?_⟩
+  · cases hr : r name <;> simp [accepted, taken, hr]
+  · intro h
+    cases hr : r name with
+    | none => simp [step, hr, holders]
+    | some l => simp [accepted, hr] at h
+  · intro h
+    cases hr : r name with
+    | none => simp [accepted, hr] at h
+    | some l => simp [step, hr]
 
-/-- **nothing but its own end takes a name from its holder**: no registration attempt and no other connection's end (or
-    clean-up) removes `k` from the name it holds -/
-theorem C07_holder_keeps_name (r : Router) (op : Op) (name : Name) (k : Nat) (hk : k ∈ r name)
-    (hop : op ≠ .ended name k) : k ∈ (step r op) name := by
+/-- **nothing but its own end takes a name from its holder**: no registration attempt, no other connection's end and no
+    clean-up removes `k` from the name it holds -/
+theorem C07_holder_keeps_name (r : Router) (op : Op) (name : Name) (k : Nat) (hk : k ∈ holders r name)
+    (hop : op ≠ .ended name k) : k ∈ holders (step r op) name := by
+  have hsome : ∃ l, r name = some l ∧ k ∈ l := by
+    cases hr : r name with
+    | none => simp [holders, hr] at hk
+    | some l => exact ⟨l, rfl, by simpa [holders, hr] using hk⟩
+  obtain ⟨l, hl, hkl⟩ := hsome
   cases op with
   | identify name' k' =>
     simp only [step]
-    split
-    · next he =>
-      by_cases hn : name = name'
-      · subst hn; simp [List.isEmpty_iff] at he; rw [he] at hk; cases hk
-      · simp only [hn, if_false]; exact hk
-    · exact hk
+    cases hr' : r name' with
+    | none =>
+      have hn : name ≠ name' := by intro h0; subst h0; rw [hl] at hr'; cases hr'
+      simp only [holders, hn, if_false]; simpa [holders] using hk
+    | some l' => exact hk
   | ended name' k' =>
     simp only [step]
-    by_cases hn : name = name'
-    · subst hn
-      simp only [if_true, List.mem_filter, ne_eq, decide_not, Bool.not_eq_eq_eq_not, Bool.not_true, decide_eq_false_iff_not]
-      refine ⟨hk, fun h0 => ?_⟩
-      subst h0; exact hop rfl
-    · simp [hn, hk]
+    cases hr' : r name' with
+    | none => exact hk
+    | some l' =>
+      by_cases hn : name = name'
+      · subst hn
+        rw [hl] at hr'; cases hr'
+        simp only [holders, if_true, Option.getD_some, List.mem_filter, ne_eq, decide_not, Bool.not_eq_eq_eq_not, Bool.not_true,
+          decide_eq_false_iff_not]
+        exact ⟨hkl, fun h0 => hop (by rw [h0])⟩
+      · simp only [holders, hn, if_false]; simpa [holders] using hk
+  | cleaned name' =>
+    simp only [step]
+    split
+    · next hr' =>
+      have hn : name ≠ name' := by intro h0; subst h0; rw [hl] at hr'; cases hr'; cases hkl
+      simp only [holders, hn, if_false]; simpa [holders] using hk
+    · exact hk
 
-/-- **the name is available again once its holder has ended** -/
-theorem C07_name_reusable (r : Router) (name : Name) (k k' : Nat) (h : r name = [k]) :
-    accepted (step r (.ended name k)) (.identify name k') = true := by
+/-- while the clean-up of a departed user is in progress the name stays taken: a new session cannot meet the old memberships -/
+theorem C07_reserved_during_cleanup (r : Router) (name : Name) (k k' : Nat) (h : r name = some [k]) :
+    accepted (step r (.ended name k)) (.identify name k') = false ∧ holders (step r (.ended name k)) name = [] := by
+  simp [accepted, step, h, holders]
+
+/-- **the name is available again once its holder has ended and the clean-up has finished** -/
+theorem C07_name_reusable (r : Router) (name : Name) (k k' : Nat) (h : r name = some [k]) :
+    accepted (step (step r (.ended name k)) (.cleaned name)) (.identify name k') = true := by
   simp [accepted, step, h]
 
 open Narwhal.Generated in
-/-- table obligation (regenerated from c2s/router.rs on every run): each of the two operations is one critical section on the
-    connection map, so the atomic steps of the model are the real granularity on any number of worker threads -/
+/-- table obligation (regenerated from c2s/router.rs on every run): each operation touches the connection map in one critical
+    section, an exclusive registration is refused whenever an entry exists, and the reservation is removed only after the clean-up -/
 theorem names_table_ok : registerOneSection = true ∧ unregisterOneSection = true := by decide
 
-example : (run init [.identify 7 1, .identify 7 2, .ended 7 1, .identify 7 3]) 7 = [3] := by decide
+example : holders (run init [.identify 7 1, .identify 7 2, .ended 7 1, .identify 7 3, .cleaned 7, .identify 7 4]) 7 = [4] := by decide
 
 end Narwhal.Names
 
 #print axioms Narwhal.Names.C07_unique_holder
 #print axioms Narwhal.Names.C07_identify_iff_free
 #print axioms Narwhal.Names.C07_holder_keeps_name
+#print axioms Narwhal.Names.C07_reserved_during_cleanup
 #print axioms Narwhal.Names.C07_name_reusable
 #print axioms Narwhal.Names.names_table_ok
